@@ -57,7 +57,12 @@ def _replay_worker(args):
         mod = _load(prop)
         ctx = core.Collector(prop, "replay", 0, "replay")
         env.reset_lib_state()
-        fails = mod.replay(kind, case) or []
+        try:
+            with env.watchdog():
+                fails = mod.replay(kind, case) or []
+        except env.CaseHang:
+            fails = [core.failure("hang.no_return", "the replayed case did not return within %d s"
+                                  % env.HANG_SECONDS, kind=kind)]
         unmatched = ctx.case(case, False, (), fails, kind=kind)
         return {"error": None, "failures": core.jsonable(fails),
                 "unmatched": core.jsonable(unmatched),
